@@ -188,6 +188,9 @@ type Conn struct {
 	WriteLatencyOf func(n int, dst netip.Addr) time.Duration
 	// WriteErr, when non-nil, decides the error of the n-th write (0-based).
 	WriteErr func(n int, dst netip.Addr) error
+	// ReturnLatencyOf: how long the n-th write takes to return AFTER the packet
+	// is on the wire (write_end recorded).
+	ReturnLatencyOf func(n int, dst netip.Addr) time.Duration
 	// OnWrite, when non-nil, is called after write_begin is recorded.
 	OnWrite func(n int, dst netip.Addr, ra *ndp.RouterAdvertisement)
 
@@ -347,6 +350,13 @@ func (c *Conn) WriteTo(m ndp.Message, _ *ipv6.ControlMessage, dst netip.Addr) er
 		end.Err = err.Error()
 	}
 	c.Tr.Add(end)
+	// the packet is on the wire; the call may still take a while to return (the
+	// sender is descheduled, a completion is reaped late)
+	if c.ReturnLatencyOf != nil && err == nil {
+		if d := c.ReturnLatencyOf(n, dst); d > 0 {
+			time.Sleep(d)
+		}
+	}
 	return err
 }
 
